@@ -28,6 +28,8 @@ DEFS = {
     'S_doc': '<xsl:stylesheet version="1.0" %s><xsl:template match="/"><o><xsl:value-of select="count(document(\'missing.xml\')//x)"/><xsl:value-of select="count(document(\'D2\')//i)"/></o></xsl:template></xsl:stylesheet>' % X,
     'S_html': '<xsl:stylesheet version="1.0" %s><xsl:output method="html"/><xsl:param name="p" select="\'d\'"/><xsl:template match="/"><html><head><title><xsl:value-of select="$p"/></title></head><body><br/><p><xsl:value-of select="count(//i)"/></p></body></html></xsl:template></xsl:stylesheet>' % X,
     'S_text': '<xsl:stylesheet version="1.0" %s><xsl:output method="text"/><xsl:template match="/"><xsl:for-each select="//i"><xsl:value-of select="@n"/>,</xsl:for-each></xsl:template></xsl:stylesheet>' % X,
+    'S_gv': '<xsl:stylesheet version="1.0" %s><xsl:variable name="g"><xsl:if test="//i[@n=\'z\']"><xsl:message terminate="yes">stop in a top-level variable</xsl:message></xsl:if><xsl:value-of select="count(//i)"/></xsl:variable>'
+            '<xsl:variable name="h" select="concat($g, \'!\')"/><xsl:template match="/"><o><xsl:value-of select="$h"/></o></xsl:template></xsl:stylesheet>' % X,
     'S_comperr': '<xsl:stylesheet version="1.0" %s><xsl:template match="/"><xsl:nosuch/><xsl:value-of select="1 +"/></xsl:template></xsl:stylesheet>' % X,
     'D1': '<r><i n="b" g="1" u="">1</i><i n="a" g="2" u="é">2</i><i n="c" g="1" u="">3</i></r>',
     'D2': '<r><i n="z" g="2" u=""><i n="y" g="1" u="">4</i></i></r>',
@@ -36,15 +38,15 @@ DEFS = {
 
 # the operation alphabet
 OPS = [
-    'compile:S_ok', 'compile:S_term', 'compile:S_comperr',
+    'compile:S_ok', 'compile:S_term', 'compile:S_gv', 'compile:S_comperr',
     'parse:D1:st', 'parse:D2:xw', 'parse:D_bad:st',
     'trS:S_ok:D1', 'trS:S_term:D1', 'trS:S_rterr:D1', 'trS:S_badname:D1', 'trS:S_enc:D2', 'trS:S_doc:D1', 'trS:S_html:D2', 'trS:S_ok:D_bad', 'trS:S_comperr:D1',
-    'trH:0:0', 'trM:S_term:0',
+    'trH:0:0', 'trH:0:1', 'trM:S_term:0',
     "param:p='1'", 'param:p=2+3', "param:q=//i[1]/@n", 'clear',
     'delS:0', 'delD:0', 'indent:2', 'enc:ISO-8859-1', 'inst', 'uninst',
 ]
-PROBES = ['trS:S_ok:D1', 'trS:S_ok:D2', 'trH:0:0', 'trS:S_html:D1', 'trS:S_term:D2', 'trS:S_text:D1', 'trM:S_ok:0']
-COMPILES_OK = {'S_ok': True, 'S_term': True, 'S_comperr': False}
+PROBES = ['trS:S_ok:D1', 'trS:S_ok:D2', 'trH:0:0', 'trH:0:1', 'trH:0:0', 'trS:S_html:D1', 'trS:S_term:D2', 'trS:S_text:D1', 'trM:S_ok:0']
+COMPILES_OK = {'S_ok': True, 'S_term': True, 'S_gv': True, 'S_comperr': False}
 PARSES_OK = {'D1': True, 'D2': True, 'D_bad': False}
 MAX_HANDLES = 2
 
@@ -89,7 +91,7 @@ class Model:
         if a[0] == 'parse':
             return len(self.sources) < MAX_HANDLES
         if a[0] == 'trH':
-            return len(self.sheets) > 0 and len(self.sources) > 0
+            return len(self.sheets) > int(a[1]) and len(self.sources) > int(a[2])
         if a[0] == 'trM':
             return len(self.sources) > 0
         if a[0] == 'delS':
